@@ -99,7 +99,7 @@ type Opts struct {
 	OnHang      func(choices []int)
 	// Journal, if set, is called with the forced prefix before every execution
 	// (crash forensics for child processes: a Go fatal error cannot be recovered).
-	Journal func(forced []int)
+	Journal func(worker int, forced []int)
 	// StopAfter: stop exploring once this many failures whose class satisfies
 	// Unknown (nil = every class) were seen; the run is then not exhaustive.
 	StopAfter int
@@ -333,7 +333,7 @@ func (e *explorer) runOne(c *Ctx, forced []int) {
 	c.nontrivial = false
 	c.skipped = false
 	if e.o.Journal != nil {
-		e.o.Journal(forced)
+		e.o.Journal(c.Worker, forced)
 	}
 	if e.started != nil {
 		f := append([]int(nil), forced...)
